@@ -351,7 +351,7 @@ def r10_6(ctx):
             ok = lowered(a) and lowered(b)
             r.ob(key, ok, f.loc(line), "%s vs %s: %s" % (show(a, f)[:70], show(b, f)[:70], "both lower-cased" if ok else "compared exactly although header names are case-insensitive everywhere else"))
         r.ob("header-name-cmp:sites", len(sites) >= 20, "", "%d comparisons of a header name" % len(sites))
-    ctx.run_rule("R10.6", "header-name comparison discipline", body, floor=21)
+    ctx.run_rule("R10.6", "header-name comparison discipline", body, floor=14)
 
 
 def run(ctx):
